@@ -342,6 +342,10 @@ func synthCert(g *RNG, idx []string) *ObjSpec {
 			}
 		case "smime":
 			forcedEKU = []string{"1.3.6.1.5.5.7.3.4"}
+			if g.Chance(0.3) {
+				// in scope through its policy identifier and mailbox name only: the purposes listed are others
+				forcedEKU = []string{pick(g, []string{"1.3.6.1.5.5.7.3.2", "1.3.6.1.4.1.311.10.3.12", "1.2.3.4.5.6"})}
+			}
 			forcedPol = []string{pick(g, []string{"2.23.140.1.5.1.1", "2.23.140.1.5.2.2", "2.23.140.1.5.3.1", "2.23.140.1.5.4.3"})}
 		case "codesigning":
 			forcedEKU = []string{"1.3.6.1.5.5.7.3.3"}
